@@ -9,6 +9,7 @@ CONSTANTS
   MaxDepth = 2
   LeafKind = "blobs"
   WithSemi = FALSE
+  ZoneNulls = TRUE
   Radii = {4}
   Margin = 4
   ProbeOdd = FALSE
